@@ -347,8 +347,7 @@ class Gen:
             elif c < 0.96:
                 L.append("ED %d %d %d" % (r.randrange(nlab), r.randrange(nlab), r.choice([1, 2, 4, 8])))
             elif c < 0.975:
-                # invalid label (not through the x86-32 [label] path: DESIGN 7.3 dereferences the invalid entry there, C14's subject)
-                L.append(self.ref(arch, nlab + r.randrange(3), allow_mem=(arch != "x86")) if arch != "a64" else self.a_ref(nlab + r.randrange(3)))
+                L.append(self.ref(arch, nlab + r.randrange(3)))      # invalid label (x86-32 [label] path included: fixed by 5010c49)
             elif c < 0.985:
                 L.append("EL %d %d" % (r.randrange(nlab), r.choice([3, 5, 16])))   # invalid size
             else:
@@ -363,17 +362,22 @@ class Gen:
                         L.append("A 1 4")
                     L.append("B %d" % l)
         if tail < 0.92:
-            L += self.no_empty_section(nsec)
+            twice = r.random() < 0.2
+            # laying out twice: a second flatten() moves an EMPTY section (and the labels bound in it) to the aligned end of its extended
+            # predecessor, references resolved by the first layout would be stale - that is C10's subject, keep sections non-empty there
+            L += self.no_empty_section(nsec, force=twice)
             L.append("F")
-            if r.random() < 0.2:
+            if twice:
                 L.append("F")
         L.append("E")
         return L
 
-    def no_empty_section(self, nsec):
-        """an empty aligned section makes flatten() non-idempotent on the pinned tree (DESIGN 7.26, C10's subject): give every section
-        some bytes before laying out"""
+    def no_empty_section(self, nsec, force=False):
+        """half of the programs give every section some bytes before laying out, the other half may leave sections empty
+        (DESIGN 7.26 made flatten() non-idempotent for empty aligned sections; fixed in /repo by 695208d)"""
         out = []
+        if not force and self.rng.random() < 0.5:
+            return out        # sections may stay empty: flatten() no longer extends empty sections (C10 fix 695208d), layout is idempotent
         for k in range(nsec):
             out += ["S %d" % k, "D 4 %d" % self.rng.getrandbits(24)]
         return out
